@@ -145,6 +145,12 @@ class Exec(ExprMixin, CallMixin):
         for nm, ts in c.ghost.items():
             t = eng.ptype(ts)
             st.ghost[nm] = SV(t, t.fresh('g_' + nm))
+        for nm, cls in eng.prop.globals.items():
+            if nm not in st.locals:
+                v = SV(T.Ref(cls), z3.Int('glob_' + nm))
+                st.locals[nm] = v
+                for a in self.type_inv(v, st):
+                    st.assume(a)
         entry = st.copy()
         st.old = entry
         self.entry = entry
